@@ -194,13 +194,21 @@ Definition dec_iflows (fl : list (Z * dgraph_enc * dgraph_enc)) (rf : list refs_
          end) fl.
 
 (* rows: declaring flow, key, is-request, output condition, answers-itself *)
+Definition row_for (i : inst) (d : dir) (r : irow) : bool :=
+  let '(IR o n q _ _) := r in (o =? fst i) && (n =? snd i) && eqb q (is_req d).
+
+(* total for the sake of the interpreter; the default (0, Plain) for an instance
+   without row is never used by a case that passes [run_case_inst]: [rows_ok]
+   below refuses the case *)
 Definition dec_ioracle (rows : list irow) : ibeh :=
   fun i d =>
-    match find (fun r => let '(IR o n q _ _) := r in
-                         (o =? fst i) && (n =? snd i) && eqb q (is_req d)) rows with
+    match find (row_for i d) rows with
     | Some (IR _ _ _ c e) => (c, if e then Early else Plain)
     | None => (0, Plain)
     end.
+
+Definition has_row (rows : list irow) (i : inst) (d : dir) : bool :=
+  existsb (row_for i d) rows.
 
 (* side conditions of a case, evaluated on its own data:
    - every node of every direction has a reference that creates it, and the
@@ -221,6 +229,20 @@ Definition dir_inst_ok (decl : list inst) (g : dgraph) (refs : list mention) (m 
 Definition inst_ok (decl : list inst) (ifs : list iflow) : bool :=
   forallb (fun f => dir_inst_ok decl (freq (i_flow f)) (i_req f) (imap_of ByNamedFlow decl f Req)
                     && dir_inst_ok decl (fres (i_flow f)) (i_res f) (imap_of ByNamedFlow decl f Res)) ifs.
+
+(* - the instance oracle is given where it is consulted: every node of every
+     direction is mapped to an instance that has a row for that direction (so
+     neither default - [beh_of_maps] for an unmapped node, [dec_ioracle] for an
+     instance without row - can stand in for a processor's output). *)
+Definition dir_rows_ok (rows : list irow) (d : dir) (g : dgraph) (m : node_map) : bool :=
+  forallb (fun n => match lookup m (fst n) with
+                    | Some i => has_row rows i d
+                    | None => false
+                    end) (nodes g).
+
+Definition rows_ok (rows : list irow) (decl : list inst) (ifs : list iflow) : bool :=
+  forallb (fun f => dir_rows_ok rows Req (freq (i_flow f)) (imap_of ByNamedFlow decl f Req)
+                    && dir_rows_ok rows Res (fres (i_flow f)) (imap_of ByNamedFlow decl f Res)) ifs.
 
 (* what identifies the instance in the implementation's effect: a processor that
    answers the request appends an early response whose content names the
@@ -269,8 +291,8 @@ Definition case_i :=
 (* None = the model - node -> instance resolved by the NAMED flow, every node
    outputting what its instance outputs - agrees with the implementation's
    events, with the instance each early response names and with the result, AND
-   the side conditions (Suite.case_ok, inst_ok) hold.  Otherwise: the two side
-   conditions and what the model says. *)
+   the side conditions (Suite.case_ok; inst_ok and rows_ok) hold.  Otherwise: the
+   side conditions (case_ok, inst_ok && rows_ok) and what the model says. *)
 Definition run_case_inst (k : case_i) : option (bool * bool * (list mevent * Z)) :=
   let '(fl, (s1, s2), isreq, (obs, code), gs, rf, decl, irows, marks) := k in
   let fs := map dec_flow fl in
@@ -285,6 +307,6 @@ Definition run_case_inst (k : case_i) : option (bool * bool * (list mevent * Z))
   let tr := map (fun e => (e_flow e, e_key e, is_req (e_dir e), e_cond e, mark_of ms ib e)) (fst r) in
   let c := result_code beh r in
   let ok1 := case_ok ((fl, (s1, s2), [], isreq, (obs, code)), gs) in
-  let ok2 := inst_ok decl ifs in
+  let ok2 := inst_ok decl ifs && rows_ok irows decl ifs in
   if eq_mevents tr obs marks && (c =? code) && ok1 && ok2 then None
   else Some (ok1, ok2, (tr, c)).
